@@ -81,6 +81,17 @@ def frontOf (table : List Row) : Front := fun e u t =>
   | some row => row.r
   | none => .crash
 
+/-- `urllib.parse.unquote` as a table `[[uri, unquoted], …]` (only the URIs it changes); identity elsewhere -/
+def getUnq (req : Json) : Except String (Uri → Uri) := do
+  let rows ← listOf req "unq" (fun p => do
+    let a ← p.getArr?
+    match a.toList with
+    | [u, v] => pure ((← u.getStr?), (← v.getStr?))
+    | _ => throw "unq row")
+  pure fun u => match rows.find? (fun r => r.1 == u) with
+    | some r => r.2
+    | none => u
+
 def getEv (j : Json) : Except String Ev := do
   let k ← j.getObjValAs? String "ev"
   match k with
@@ -129,11 +140,12 @@ def runOp (req : Json) : Except String Json := do
   let table ← getTable req
   let configUri ← req.getObjValAs? String "configUri"
   let evs ← listOf req "events" getEv
+  let unq ← getUnq req
   match missingRows table evs with
   | m :: _ => throw s!"front table lacks {m}"
   | [] =>
     let front := frontOf table
-    let (_, outs) := evs.foldl (fun (acc : St × List Out) e => let (s1, o) := step front configUri acc.1 e; (s1, acc.2 ++ [o])) (init, [])
+    let (_, outs) := evs.foldl (fun (acc : St × List Out) e => let (s1, o) := step front configUri unq acc.1 e; (s1, acc.2 ++ [o])) (init, [])
     pure (Json.mkObj [("outs", Json.arr (outs.map outJ).toArray)])
 
 def getDiag (j : Json) : Except String Diag := do
@@ -165,8 +177,8 @@ def getOut (o : Json) : Except String Out := do
   pure { pubs := ← getPubs o, answer := ← o.getObjVal? "answer" >>= getAnswer, errors := ← o.getObjValAs? Nat "errors",
          misuse := (o.getObjValAs? Bool "misuse").toOption.getD false }
 
-def modelOuts (front : Front) (configUri : Uri) (evs : List Ev) : List Out :=
-  (evs.foldl (fun (acc : St × List Out) e => let (s1, o) := step front configUri acc.1 e; (s1, acc.2 ++ [o])) (init, [])).2
+def modelOuts (front : Front) (configUri : Uri) (unq : Uri → Uri) (evs : List Ev) : List Out :=
+  (evs.foldl (fun (acc : St × List Out) e => let (s1, o) := step front configUri unq acc.1 e; (s1, acc.2 ++ [o])) (init, [])).2
 
 def firstDiff : List Out → List Out → Nat → Option (Nat × Out × Out)
   | m :: ms, i :: is, k => if m == i then firstDiff ms is (k + 1) else some (k, m, i)
@@ -177,6 +189,7 @@ def firstDiff : List Out → List Out → Nat → Option (Nat × Out × Out)
 def checkOp (req : Json) : Except String Json := do
   let table ← getTable req
   let configUri ← req.getObjValAs? String "configUri"
+  let unq ← getUnq req
   let front := frontOf table
   let items ← listOf req "items" (fun it => do
     let evs ← listOf it "events" getEv
@@ -185,7 +198,7 @@ def checkOp (req : Json) : Except String Json := do
     match missingRows table evs with
     | m :: _ => throw s!"front table lacks {m}"
     | [] => pure ()
-    let corr := match firstDiff (modelOuts front configUri evs) outs 0 with
+    let corr := match firstDiff (modelOuts front configUri unq evs) outs 0 with
       | some (k, m, i) => Json.mkObj [("index", k), ("model", outJ m), ("impl", outJ i)]
       | none => Json.null
     let failed := specCheck front (evs.zip (outs.map fun o => (o.pubs, o.answer, o.errors))) 0 0 (fun _ => none) []
